@@ -7,13 +7,14 @@ commutative (semi)ring of series with element-wise operations) for time series.
 "Operands are left unchanged" has no content in a value model; that clause is decided
 by the correspondence check only (it snapshots the implementation's operands).
 -/
-import FeemsProofs.Lemmas.FuelLemmas
+import FeemsProofs.Lemmas.KVLemmas
+import FeemsModel.Model.Fuel
 
 set_option linter.unusedSimpArgs false
 set_option linter.unusedSectionVars false
 
 namespace Feems.Props.C18
-open Feems Feems.Fuel
+open Feems Feems.KV Feems.Fuel
 
 section additive
 variable {M : Type} [AddCommMonoid M]
@@ -21,73 +22,17 @@ variable {M : Type} [AddCommMonoid M]
 /-- Adding records adds the mass of every fuel kind. -/
 theorem add_mass (k : Kind) (a b : Rec M) (ha : WellFormed a) (hb : WellFormed b) :
     massOf k (add a b) = massOf k a + massOf k b := by
-  rw [add_eq_spec a b hb, addSpec, massOf_append]
-  -- left part: the entries of `a`, each with the mass of its kind in `b` added
-  have h1 : massOf k (a.map (fun e => (e.1, e.2 + massOf e.1 b))) =
-      massOf k a + (if k ∈ kinds a then massOf k b else 0) := by
-    induction a with
-    | nil => simp [massOf, kinds]
-    | cons e a ih =>
-      have ha' : WellFormed a := (List.nodup_cons.mp ha).2
-      have hnot : e.1 ∉ kinds a := (List.nodup_cons.mp ha).1
-      rw [List.map_cons, massOf_cons, massOf_cons, ih ha']
-      have hk : k ∈ kinds (e :: a) ↔ k = e.1 ∨ k ∈ kinds a := by simp [kinds]
-      by_cases h : e.1 = k
-      · subst h
-        rw [if_pos rfl, if_pos rfl, if_neg hnot, if_pos (hk.mpr (Or.inl rfl)), add_zero]
-        show e.2 + massOf e.1 b + massOf e.1 a = e.2 + massOf e.1 a + massOf e.1 b
-        ac_rfl
-      · have h' : ¬ k = e.1 := fun x => h x.symm
-        rw [if_neg h, if_neg h, zero_add, zero_add]
-        by_cases hm : k ∈ kinds a
-        · rw [if_pos hm, if_pos (hk.mpr (Or.inr hm))]
-        · rw [if_neg hm, if_neg (fun x => (hk.mp x).elim h' hm)]
-  -- right part: the entries of `b` whose kind is not in `a`
-  have h2 : massOf k (b.filter (fun e => decide (e.1 ∉ kinds a))) =
-      (if k ∈ kinds a then 0 else massOf k b) := by
-    unfold massOf
-    rw [List.filter_filter]
-    by_cases h : k ∈ kinds a
-    · rw [if_pos h]
-      have : b.filter (fun e => (decide (e.1 = k) && decide (e.1 ∉ kinds a))) = [] := by
-        apply List.filter_eq_nil_iff.mpr
-        intro e _ hc
-        simp only [Bool.and_eq_true, decide_eq_true_eq] at hc
-        exact hc.2 (hc.1 ▸ h)
-      rw [this]; rfl
-    · rw [if_neg h]
-      congr 1
-      apply List.filter_congr
-      intro e _
-      by_cases hk : e.1 = k
-      · simp [hk, h]
-      · simp [hk]
-  rw [h1, h2]
-  by_cases h : k ∈ kinds a <;> simp [h, add_assoc]
+  rw [add_eq_spec a b hb]; exact massOf_addSpec k a b ha
 
 /-- … and therefore the total. -/
 theorem add_total (a b : Rec M) (ha : WellFormed a) (hb : WellFormed b) :
     total (add a b) = total a + total b := by
-  rw [add_eq_spec a b hb, addSpec, total_append, total_map_add a (fun k => massOf k b), sum_massOf_eq a b ha, _root_.add_assoc]
-  congr 1
-  have := total_filter_split (fun e => decide (e.1 ∈ kinds a)) b
-  simpa using this
+  rw [add_eq_spec a b hb]; exact total_addSpec a b ha
 
 /-- The sum of two well-formed records is well formed (no kind listed twice). -/
 theorem add_wellFormed (a b : Rec M) (ha : WellFormed a) (hb : WellFormed b) :
     WellFormed (add a b) := by
-  rw [add_eq_spec a b hb]
-  unfold addSpec WellFormed kinds
-  rw [List.map_append, List.map_map]
-  have e1 : ((fun x : Kind × M => x.1) ∘ fun e : Kind × M => (e.1, e.2 + massOf e.1 b)) = fun x : Kind × M => x.1 := rfl
-  rw [e1]
-  apply List.Nodup.append ha
-  · exact List.Nodup.sublist (List.Sublist.map _ List.filter_sublist) hb
-  · intro k hk1 hk2
-    rcases List.mem_map.mp hk2 with ⟨e, he, rfl⟩
-    have := (List.mem_filter.mp he).2
-    simp only [decide_eq_true_eq] at this
-    exact this hk1
+  rw [add_eq_spec a b hb]; exact wellFormed_addSpec a b ha hb
 
 /-- Operand order does not matter (as a map kind ↦ mass). -/
 theorem add_comm (k : Kind) (a b : Rec M) (ha : WellFormed a) (hb : WellFormed b) :
